@@ -381,6 +381,66 @@ func c19RecvID(c *Case, part, parts int) {
 		vals = append(vals, v)
 	}
 	var nTrue int
+	if part == parts-1 {
+		// sequences: the session's notion of "last id" must follow every accepted id
+		// (also backwards across the wrap), step by step against the reference state machine
+		n, steps := 3000, 0
+		var sample []string
+		for i := 0; i < n; i++ {
+			s := wamp.NewSession(nil, 1, nil, nil)
+			var last uint64
+			var cur uint64
+			switch c.Rng.IntN(3) {
+			case 0:
+				cur = max - uint64(c.Rng.IntN(600))
+			case 1:
+				cur = uint64(1 + c.Rng.IntN(600))
+			default:
+				cur = c.Rng.Uint64N(max) + 1
+			}
+			for k := 0; k < 40; k++ {
+				var id uint64
+				switch c.Rng.IntN(8) {
+				case 0, 1, 2:
+					id = cur + uint64(1+c.Rng.IntN(3)) // forward
+				case 3:
+					id = cur // repeat
+				case 4:
+					id = cur - uint64(c.Rng.IntN(5)) // slightly older
+				case 5:
+					id = uint64(1 + c.Rng.IntN(520)) // small id (wrap candidate)
+				case 6:
+					id = max - uint64(c.Rng.IntN(520))
+				default:
+					id = c.Rng.Uint64N(max+3)
+				}
+				if id > max+2 {
+					id = max + 2
+				}
+				want := model.IsNewRecvID(last, id)
+				got := s.UpdateLastRecvID(wamp.ID(id))
+				c.Hit("ID4")
+				steps++
+				if got != want {
+					c.Fail("ID4", "updatelastrecvid sequence", "sequence step %d: UpdateLastRecvID(%d) with reference last=%d returned %v, reference %v", k, id, last, got, want)
+					break
+				}
+				if want {
+					last = id
+					nTrue++
+					cur = id
+				}
+				if i == 0 && k < 8 {
+					sample = append(sample, fmt.Sprintf("%d->%v", id, got))
+				}
+			}
+		}
+		c.Add("recvid_sequence_steps", float64(steps))
+		c.Sample = map[string]any{"kind": "recvid-sequences", "sequences": n, "steps": steps, "first": sample}
+		c.NT = nTrue > 0 && nTrue < steps
+		c.Key = "recvid sequences"
+		return
+	}
 	if part < parts-2 {
 		// exhaustive slice of the (last, id) square near the boundaries
 		n := 0
